@@ -177,4 +177,7 @@ theorem finished_silent (fuel : Nat) (ev : Ev) (op : Op) (h : op.phase = .finish
     simp only [Op.phase] at h
     cases k <;> cases ev <;> simp [deliver, binStep, waStep, swStep, seqStep, h]
 
+theorem connect_idle (e : Expr) : (connect e).phase = .idle := by
+  cases e <;> simp [connect, Op.phase, BinSt.init]
+
 end Unifex.Calc
